@@ -688,7 +688,13 @@ func (s *Server) complete(ctx context.Context, req *CompleteRequest) (*CompleteR
 	if s.opts.CompletionHandler == nil {
 		return nil, jsonrpc2.ErrMethodNotFound
 	}
-	return s.opts.CompletionHandler(ctx, req)
+	res, err := s.opts.CompletionHandler(ctx, req)
+	if err == nil && res != nil && res.Completion.Values == nil {
+		res2 := *res
+		res2.Completion.Values = []string{} // avoid JSON null
+		res = &res2
+	}
+	return res, err
 }
 
 // Map from notification name to a function creating its corresponding Params.
@@ -877,6 +883,11 @@ func (s *Server) getPrompt(ctx context.Context, req *GetPromptRequest) (*GetProm
 	if err == nil && res != nil {
 		if err := handleMultiRoundTripResult(req.Session, s.opts.Logger, res); err != nil {
 			return nil, err
+		}
+		if res.Messages == nil && res.resultType != resultTypeInputRequired {
+			res2 := *res
+			res2.Messages = []*PromptMessage{} // avoid JSON null
+			res = &res2
 		}
 	}
 	return res, err
